@@ -33,7 +33,7 @@ M[-1]["extra"] = [(PA, '    "&&" => BinaryOp::And,\n    "||" => BinaryOp::Or,\n}
 # C16
 m("sum_int_string", ["C16"], EV, "                (Value::Str(a), Value::Str(b)) => {\n                    Ok(Value::Str([a.clone(), b.clone()].concat()))\n                },",
   "                (Value::Str(a), Value::Str(b)) => {\n                    Ok(Value::Str([a.clone(), b.clone()].concat()))\n                },\n                (Value::Int(a), Value::Str(b)) => {\n                    Ok(Value::Str([a.to_string().into_bytes(), b.clone()].concat()))\n                },")
-m("swap_types_in_msg", ["C16", "C10"], "src/eval/error.rs", "        op_symbol(op),\n        render_type(lhs),\n        render_type(rhs),\n    ))]\n    InvalidOpTypes", "        op_symbol(op),\n        render_type(rhs),\n        render_type(lhs),\n    ))]\n    InvalidOpTypes")
+m("swap_types_in_msg", ["C16"], "src/eval/error.rs", "        op_symbol(op),\n        render_type(lhs),\n        render_type(rhs),\n    ))]\n    InvalidOpTypes", "        op_symbol(op),\n        render_type(rhs),\n        render_type(lhs),\n    ))]\n    InvalidOpTypes")
 m("type_name_str", ["C16"], TF, '            Value::Str(_) => "string",', '            Value::Str(_) => "str",')
 m("refeq_builtin", ["C16"], EV, "        (Value::Func(a), Value::Func(b)) => {\n            Some(value::ref_eq(a, b))\n        },", "        (Value::Func(a), Value::Func(b)) => {\n            Some(value::ref_eq(a, b))\n        },\n\n        (Value::BuiltinFunc{..}, Value::BuiltinFunc{..}) => {\n            Some(true)\n        },")
 # C01 / C07
@@ -54,7 +54,8 @@ m("eq_no_len_check", ["C10"], EV, "            if xs.len() != ys.len() {\n      
 m("ne_returns_eq", ["C10", "C01"], EV, "                        BinaryOp::Eq => Ok(Value::Bool(v)),\n                        _ => Ok(Value::Bool(!v)),", "                        BinaryOp::Eq => Ok(Value::Bool(v)),\n                        _ => Ok(Value::Bool(v)),")
 # C11
 m("range_read_end_exclusive_check", ["C11"], EV, "    if let Some(vs) = s.get(*start .. *end) {\n        return Ok(value::new_str(vs.to_vec()));\n    }", "    if *end < s.len() || *start == *end {\n    if let Some(vs) = s.get(*start .. *end) {\n        return Ok(value::new_str(vs.to_vec()));\n    }\n    }")
-m("range_assign_start_ge", ["C11"], BI, "    if start > list_len {", "    if start >= list_len {")
+m("range_assign_end_ge", ["C11"], BI, "    } else if end > list_len {", "    } else if end >= list_len {")
+# (`start >= list_len` instead of `>` is an equivalent mutant: start == len is rejected by the next check anyway)
 m("omitted_start_one", ["C11"], EV, "    let start = maybe_start.get_or_insert(0);\n    let end = maybe_end.get_or_insert(lock_deref!(list).len());", "    let start = maybe_start.get_or_insert(1);\n    let end = maybe_end.get_or_insert(lock_deref!(list).len());")
 # C12
 m("prop_write_no_insert", ["C12"], BI, "                    lock_deref!(props).insert(name, rhs);\n\n                    Ok(())\n                },\n\n                value => {", "                    let _ = (name, rhs);\n\n                    Ok(())\n                },\n\n                value => {")
@@ -91,3 +92,6 @@ m("call_loc_from_args", ["C18"], PA, "    <loc:@L> <expr:ExprPrecedence5> \"(\" 
 m("if_drops_escape", ["C07", "C01"], EV, "                    let v = eval_stmts_in_new_scope(context, scopes, stmts)\n                        .context(EvalIfStatementsFailed)?;\n\n                    return Ok(v);", "                    let v = eval_stmts_in_new_scope(context, scopes, stmts)\n                        .context(EvalIfStatementsFailed)?;\n\n                    if let Escape::Continue{..} = v { return Ok(Escape::None); }\n                    return Ok(v);")
 m("for_continue_as_break", ["C07", "C01"], EV, "                match escape {\n                    Escape::None => {},\n                    Escape::Break{..} => break,\n                    Escape::Continue{..} => continue,\n                    Escape::Return{..} => return Ok(escape),\n                }\n            }\n        },\n\n        Stmt::Break", "                match escape {\n                    Escape::None => {},\n                    Escape::Break{..} => break,\n                    Escape::Continue{..} => break,\n                    Escape::Return{..} => return Ok(escape),\n                }\n            }\n        },\n\n        Stmt::Break")
 m("else_branch_swallow_return", ["C07"], EV, "                let v = eval_stmts_in_new_scope(context, scopes, stmts)\n                    .context(EvalElseStatementsFailed)?;\n\n                return Ok(v);", "                let v = eval_stmts_in_new_scope(context, scopes, stmts)\n                    .context(EvalElseStatementsFailed)?;\n\n                if let Escape::Break{..} = v { return Ok(v); }")
+m("eq_keys_from_rhs_only", ["C10"], EV, "            for (k, x) in &xs {\n                let y =\n                    if let Some(y) = ys.get(k) {\n                        y\n                    } else {\n                        return Ok(false);\n                    };", "            for (k, x) in &xs {\n                let y =\n                    if let Some(y) = ys.get(k) {\n                        y\n                    } else {\n                        continue;\n                    };")
+m("eq_identity_shortcut_all", ["C10"], EV, "        (Value::Str(a), Value::Str(b)) =>\n            Ok(a == b),\n\n        (Value::List(xs), Value::List(ys)) => {", "        (Value::Str(a), Value::Str(b)) =>\n            Ok(a.len() == b.len() && (a.len() < 2 || a == b)),\n\n        (Value::List(xs), Value::List(ys)) => {")
+m("eq_mismatch_false", ["C10", "C16"], EV, "        _ =>\n            Err((\n                String::new(),\n                error::render_type(lhs),\n                error::render_type(rhs),\n            )),\n    }\n}", "        (Value::Null, _) | (_, Value::Null) => Ok(false),\n        _ =>\n            Err((\n                String::new(),\n                error::render_type(lhs),\n                error::render_type(rhs),\n            )),\n    }\n}")
